@@ -12,6 +12,7 @@ From Spec Require Import ISA Spec816.
 From Lib Require Import ZOps Machine.
 From Snapshot Require Import GenFields GenCpu65.
 From Props Require Import C01Base C01AdcRef C01Props.
+From Props Require CoupleProps.
 Import ListNotations.
 Local Open Scope Z_scope.
 
@@ -22,6 +23,18 @@ Definition branch_cond (op : Z) (a : arch) : bool :=
   | _ => true
   end.
 Definition cond_branches : list Z := [16; 48; 80; 112; 144; 176; 208; 240].
+
+(* the branch condition used by C07's program-level theorem (Props/CoupleProps.br_taken, over the flags as 0 / 1) is the
+   condition of the architectural specification: [branch_cond], which C07_branch_not_taken below ties to Spec816.step *)
+Lemma br_taken_spec816 : forall op a, In op cond_branches ->
+  CoupleProps.br_taken op (if fN a then 1 else 0) (if fV a then 1 else 0) (if fC a then 1 else 0) (if fZ a then 1 else 0) = branch_cond op a.
+Proof.
+  intros op a Hin. cbv [cond_branches In] in Hin.
+  repeat (destruct Hin as [<- | Hin]; [ cbn [CoupleProps.br_taken branch_cond]; destruct (fN a), (fV a), (fC a), (fZ a); reflexivity | ]).
+  contradiction.
+Qed.
+Lemma cond_branches_same : cond_branches = CoupleProps.cond_ops.
+Proof. reflexivity. Qed.
 
 Lemma not_arith_defined : forall s, wf s ->
   match mnem_of (opcode_at s) with ADC | SBC => False | _ => True end ->
@@ -124,6 +137,7 @@ Example C07_ext_premises :
                 (fun a => if a =? 32768 then 208 else 0) [] (fun _ => false) false in
   opcode_at s = 208 /\ branch_cond 208 (abs s) = false /\ match Step s with Ok _ s' => get f_PC s' = 32770 | Panic => False end.
 Proof. vm_compute. repeat split; reflexivity. Qed.
+Print Assumptions br_taken_spec816.
 Print Assumptions C07_branch_not_taken.
 Print Assumptions C07_block_move.
 Print Assumptions C07_wai_stp.
